@@ -102,3 +102,19 @@ Proof.
   - exists 1. split; [vm_compute; auto|vm_compute; reflexivity].
   - vm_compute. reflexivity.
 Qed.
+
+(* Why the repair of F3 is needed (and why C03_heap_inv needs hole_fix_down + fix_up_ok): removing position 4 of
+   this 7-element heap with Swap + FixDown only - the code before commit 4d58417 - leaves 4 below its parent 10. *)
+Example C03_fixdown_alone_is_not_enough :
+  let f := to_fun 0 [1; 10; 2; 11; 12; 3; 4] in
+  ok (fun x : Z => x) f 7 /\
+  ~ ok (fun x : Z => x) (fix_down (fun x : Z => x) 6 (swap f 4 7) 4 6) 6 /\
+  ok (fun x : Z => x) (fix_up (fun x : Z => x) 4 (fix_down (fun x : Z => x) 6 (swap f 4 7) 4 6) 4) 6.
+Proof.
+  cbv zeta. split; [|split].
+  - intros i Hi. assert (E : (i = 2 \/ i = 3 \/ i = 4 \/ i = 5 \/ i = 6 \/ i = 7)%nat) by lia.
+    destruct E as [->|[->|[->|[->|[->| ->]]]]]; unfold le_at; vm_compute; discriminate.
+  - intros H. specialize (H 4%nat ltac:(lia)). unfold le_at in H. vm_compute in H. apply H. reflexivity.
+  - intros i Hi. assert (E : (i = 2 \/ i = 3 \/ i = 4 \/ i = 5 \/ i = 6)%nat) by lia.
+    destruct E as [->|[->|[->|[->| ->]]]]; unfold le_at; vm_compute; discriminate.
+Qed.
